@@ -114,6 +114,12 @@ CHECKS["C17"] = ("model_checking",
     "Key alphabet of three; merge parents are set through the _merge_parent attribute as the library's own tests do.",
     "DESIGN.md §3 C17")
 
+CHECKS["C18"] = ("model_checking",
+    "exhaustive enumeration of the option matrix x supply forms x overrides x repository orders (incl. prepend/append after a first resolution); differential oracle = behavioural probes of the constructor-built twin",
+    "All 90 combinations of storage type {filesystem, memory, null} x metadata_path x memory_cache_mb x readonly {absent, false, true} x runner {absent, local, null}, each supplied as inline dict, as JSON files (environment -> repository -> cluster) and as a YAML repository file with a template parameter, are compared with the cluster built from constructor arguments through behavioural probes (where data and mementos land, whether a repeated read opens files, whether memoize / forget / metadata writes are accepted, whether calls run); each environment is then dumped with to_dict() and rebuilt: same probes, and a result written through the original must be served through the rebuilt one. Seven explicit-argument overrides must win over the configuration. Repository lists of length 1..3 over all cluster-name subsets in every order, also with a prepend or append after a first resolution, must resolve each name to the first repository defining it (identity, where the call stores, and after dump/rebuild).",
+    "Options documented for the shipped backends only; paths in scratch space.",
+    "DESIGN.md §3 C18")
+
 PENDING = {}
 
 
